@@ -155,6 +155,8 @@ class Case:
         self.attempts = 0
         self.vsum = None
         self.viol = None     # (key, msg)
+        self.skipped = False  # not run (or killed) because the run had already collected enough violations
+        self.proc = None
 
 
 SIGNAMES = {getattr(signal, n): n for n in dir(signal) if n.startswith("SIG") and not n.startswith("SIG_")}
@@ -173,6 +175,7 @@ def run_one(c):
                              cwd=c.cwd, start_new_session=True)
     except OSError as e:
         raise HarnessError("cannot start %r: %s" % (c.cmd, e))
+    c.proc = p
     try:
         out, err = p.communicate(input=c.stdin, timeout=c.timeout)
     except subprocess.TimeoutExpired:
@@ -182,6 +185,7 @@ def run_one(c):
         except OSError:
             pass
         out, err = p.communicate()
+    c.proc = None
     c.rc = p.returncode
     c.out = out.decode("utf-8", "replace")
     c.err = err.decode("utf-8", "replace")[-20000:]
@@ -206,30 +210,53 @@ def run_one(c):
     return c
 
 
-def run_cases(cases, cap=None, progress=None):
-    """run cases concurrently; sum of weights of running cases <= cap"""
+def run_cases(cases, cap=None, progress=None, max_violations=12):
+    """run cases concurrently; sum of weights of running cases <= cap.
+    Fail fast: once max_violations cases have violated, the remaining cases are skipped and the
+    running ones are killed (their results are discarded) - a violating tree needs no full sweep."""
     cap = cap or (NCPU + 4)
     lock = threading.Condition()
-    state = {"load": 0, "done": 0}
+    state = {"load": 0, "done": 0, "viol": 0, "stop": False}
     threads = []
+    running = set()
 
     def worker(c):
         try:
             run_one(c)
-            if c.timed_out and c.attempts < 2:
+            if c.timed_out and c.attempts < 2 and not state["stop"]:
                 run_one(c)   # one automatic re-run before anything is reported
+            if state["stop"] and (c.timed_out or (c.rc is not None and c.rc < 0 and not c.viol and c.rc == -9)):
+                c.skipped = True
         finally:
             with lock:
                 state["load"] -= c.weight
                 state["done"] += 1
+                running.discard(c)
+                if not c.skipped and classify(c)[0] != "ok":
+                    state["viol"] += 1
+                    if state["viol"] >= max_violations and not state["stop"]:
+                        state["stop"] = True
+                        log("fail-fast: %d violating cases, stopping the sweep" % state["viol"])
+                        for o in list(running):
+                            o.skipped = True
+                            pr = o.proc
+                            if pr is not None:
+                                try:
+                                    os.killpg(pr.pid, signal.SIGKILL)
+                                except OSError:
+                                    pass
                 lock.notify_all()
 
     order = sorted(cases, key=lambda c: -c.weight)
     for c in order:
         with lock:
-            while state["load"] + c.weight > cap and state["load"] > 0:
+            while state["load"] + c.weight > cap and state["load"] > 0 and not state["stop"]:
                 lock.wait()
+            if state["stop"]:
+                c.skipped = True
+                continue
             state["load"] += c.weight
+            running.add(c)
         t = threading.Thread(target=worker, args=(c,))
         t.start()
         threads.append(t)
@@ -310,6 +337,7 @@ def finish(prop, tier, seed, level, t0, cases, coverage, assumptions, builder=No
     viol = []        # (key, detail, case)
     inconclusive = []
     n_ok = 0
+    cases = [c for c in cases if not c.skipped]
     for c in cases:
         st, key, detail = classify(c)
         if st == "ok":
